@@ -121,7 +121,7 @@ def small_scope_cases(ctx):
 
 def run(ctx):
     small_scope_cases(ctx)
-    n_models = (150 if ctx.quick else 1200) * (3 if ctx.search else 1)
+    n_models = (250 if ctx.quick else 1200) * (3 if ctx.search else 1)
     for _ in range(n_models):
         a, o, t = gen_valid(ctx.rng, ctx.quick, wide_p=0.0)
         do_case(ctx, {"ast": a})
